@@ -89,6 +89,12 @@ def oracle(program, aux):
             a.stats['bad_refused'] += 1
     a.stats['bad_skipped'] = sum(1 for i, _ in a.skipped if a.ops[i]['k'] == 'bad')
     if a.stats['bad_accepted']:
+        if getattr(a, 'bad_unwritable', None):
+            row, where_, msg = a.bad_unwritable
+            failures = [('C14/accepted-but-unwritable/%s/%s' % (row, where_), 'write-after-refusal',
+                         'the call %s was not refused, and the object can no longer be written: %s' % (row, msg))]
+            a.close()
+            return a, failures
         a.close()
         return a, []
     a.staged_hit = any(br[2] for br in getattr(a, 'bad_results', []) if br[3] != 'accepted')
